@@ -72,3 +72,30 @@ func (s *Default) VerifC13ServiceMatch(svcID, host string) (ok bool) {
 
 	return false
 }
+
+// VerifC13SafeSearchMatch returns true if the general (or, if general is
+// false, the YouTube) safe-search filter is enabled and has a rule matching an
+// A request for host.
+func (s *Default) VerifC13SafeSearchMatch(general bool, host string) (ok bool) {
+	f := s.safeSearchYouTube
+	if general {
+		f = s.safeSearchGeneral
+	}
+
+	return f != nil && f.VerifC13Match(host)
+}
+
+// VerifC13SafeSearchRulesCount returns the number of rules of the general (or
+// YouTube) safe-search filter or -1 if it is disabled.
+func (s *Default) VerifC13SafeSearchRulesCount(general bool) (n int) {
+	f := s.safeSearchYouTube
+	if general {
+		f = s.safeSearchGeneral
+	}
+
+	if f == nil {
+		return -1
+	}
+
+	return f.VerifC13RulesCount()
+}
